@@ -4,8 +4,10 @@ Same machinery and the same comparisons (A tests, B decision function, C returne
 loops carry state are compared as transition systems cut at the loop headers (per segment: guard, next cut point, update of every carried variable).
 Covered: Zeta (Devroye's rejection from the Pareto-like envelope), Zipf (rejection from the piecewise envelope; Zipf::new, inv_cdf), Poisson/Knuth,
 Binomial BINV and BTPE (Kachitvichyanukul & Schmeiser 1988) with Binomial::new, StandardGeometric, Geometric (trivial algorithm / Bringmann &
-Friedrich 2013), Hypergeometric HIN (Kachitvichyanukul & Schmeiser 1985, inverse transform by the pmf ratio).
-Not covered (reported in the evidence as not examined): Poisson's Ahrens-Dieter rejection, Hypergeometric H2PE and Hypergeometric::new.
+Friedrich 2013), Hypergeometric HIN (Kachitvichyanukul & Schmeiser 1985, inverse transform by the pmf ratio), Poisson for lambda >= 12 (Ahrens & Dieter 1982, algorithm PD:
+Poisson::new's switch, the set-up constants, steps N/I/S/Q/E/H, procedure F with Table 1 and the factorial table).
+Hypergeometric::new (both reflections with the sign/offset bookkeeping, the HIN/H2PE switch, HIN's starting point, H2PE's set-up constants).
+Not covered (reported in the evidence as not examined): the H2PE sampler itself (Hypergeometric::sample, RejectionAcceptance arm).
 The pmf itself is not decided anywhere.
 """
 CONFIGS_THOROUGH = ["serde", "release"]
@@ -132,6 +134,12 @@ def _btpe_spec():
     return dict(name="btpe", fn="binomial::btpe", kind="ts", generic=False, bits=(64,), self_ty=None, draws=[("Uniform", "u"), ("Uniform", "v")],
                 rename={"btpe_n": "n", "btpe_p": "p", "btpe_m": "m", "btpe_p1": "p1", "lambda": "lam_", "i__2": "i_b"},
                 symbols={"n": "positive", "p": "positive", "m": "positive", "p1": "positive", "u": "positive", "v": "positive", "f": "positive", "i": "positive", "i_b": "positive", "y": "positive"},
+                # inside BTPE's domain (n p >= 10, p <= 1/2, 0 < u, v < 1, y and the loop counters near the mode)
+                points=[{"n": "200", "p": "3/10", "m": "60", "p1": "23/2", "u": "2/5", "v": "3/7", "f": "6/5", "i": "57", "i_b": "52", "y": "55"},
+                        {"n": "1000", "p": "9/20", "m": "450", "p1": "67/2", "u": "7/9", "v": "1/5", "f": "3/4", "i": "461", "i_b": "440", "y": "470"},
+                        # u beyond p2 = p1 (1 + 2c): the tail regions, where ln(v (u - p2) lambda) is real
+                        {"n": "200", "p": "3/10", "m": "60", "p1": "23/2", "u": "25", "v": "3/7", "f": "6/5", "i": "57", "i_b": "52", "y": "55"},
+                        {"n": "1000", "p": "9/20", "m": "450", "p1": "67/2", "u": "50", "v": "1/5", "f": "3/4", "i": "461", "i_b": "440", "y": "470"}],
                 nodes={"entry": [], "outer": [], "loopA": ["f", "i", "y", "v"], "loopB": ["f", "i_b", "y", "v"]},
                 rules=rules)
 
@@ -239,14 +247,71 @@ def _hyper_new_spec():
                 symbols={"K": "positive", "n": "positive", "s_": "positive"}, subs={"N": "K + n + s_"}, rules=rules)
 
 
-# Hypergeometric::new's reference (_hyper_new_spec) is written down but not armed: the term extraction leaves some of
-# the constructor's float temporaries unresolved, so the comparison would be decided on an incomplete term.
+def _poisson_pd_specs():
+    """Poisson, lambda >= 12: Ahrens & Dieter (1982), algorithm PD — set-up constants, steps N, I, S, Q, E, H and procedure F."""
+    A = [-0.5000000002, 0.3333333343, -0.2499998565, 0.1999997049, -0.1666848753, 0.1428833286, -0.1241963125, 0.1101687109, -0.1142650302, 0.1055093006]   # Table 1
+    FACT = [1.0, 1.0, 2.0, 6.0, 24.0, 120.0, 720.0, 5040.0, 40320.0, 362880.0]
+    v = "((lam - k)/k)"
+    series = "0"
+    for a in reversed(A):
+        series = "((%s)*%s + %s)" % (series, v, rules_c01.frac_of(a))
+    delta0 = "(1/(12*k))"
+    delta = "(%s - Rational(48,10)*%s**3)" % (delta0, delta0)
+    py = "(1/sqrt(2*pi)/sqrt(k))"
+    x = "((k - lam + Rational(1,2))/s)"
+    fx = "(-Rational(1,2)*%s*%s)" % (x, x)
+    fy = "(omega*(((c3*%s*%s + c2)*%s*%s + c1)*%s*%s + c0))" % (x, x, x, x, x, x)
+    sym_f = {"lam": "positive", "s": "positive", "omega": "positive", "c0": "real", "c1": "real", "c2": "real", "c3": "real", "k": "positive"}
+    proc_f = dict(name="RejectionMethod::sample::F", fn="<poisson::RejectionMethod<F> as rand::distr::Distribution<F>>::sample::{closure#0}", kind="alg", self_ty="RejectionMethod", rename={"lambda": "lam"},
+                  draws=[], symbols=sym_f, tables={"FACT_": FACT},
+                  rules=[("k < 10", "return tup_(-lam, lam**k/FACT_(k), %s, %s)" % (fx, fy)),
+                         ("Abs(%s) <= Rational(1,4)" % v, "return tup_(k*%s**2*%s - %s, %s, %s, %s)" % (v, series, delta, py, fx, fy)),
+                         (None, "return tup_(k*ln(1 + %s) - (lam - k) - %s, %s, %s, %s)" % (v, delta, py, fx, fy))])
+    g = "sample(Normal_new(lam, s))"
+    k1 = "floor(%s)" % g
+    f1 = "closure0_(%s)" % k1
+    u_ = "(u2*2 - 1)"
+    t_ = "(Rational(9,5) + e*sign(%s))" % u_
+    k2 = "floor(lam + s*%s)" % t_
+    f2 = "closure0_(%s)" % k2
+    tg = lambda f_, i: "tupget_(%s, %d)" % (f_, i)
+    sample = dict(name="RejectionMethod::sample", fn="<poisson::RejectionMethod<F> as " + D, kind="ts", self_ty="RejectionMethod", rename={"lambda": "lam"},
+                  draws=[("StandardUniform", "u1"), ("Exp1", "e"), ("StandardUniform", "u2")],
+                  symbols={"lam": "positive", "s": "positive", "d": "positive", "l": "positive", "c": "positive", "u1": "positive", "u2": "positive", "e": "positive"},
+                  nodes={"entry": [], "loop": []},
+                  rules={"entry": [("0 <= %s" % g, "goto stepI"), (None, "goto loop")],
+                         # I: immediate acceptance above L; S: squeeze d U >= (mu - K)^3; Q: quotient acceptance with procedure F
+                         "stepI": [("l <= %s" % k1, "return " + k1), ("(lam - %s)**3 <= d*u1" % k1, "return " + k1),
+                                   ("%s*(1 - u1) <= %s*exp(%s - %s)" % (tg(f1, 3), tg(f1, 1), tg(f1, 0), tg(f1, 2)), "return " + k1), (None, "goto loop")],
+                         # E: double-exponential proposal T = 1.8 + E sign(U), rejected at or below -0.6744; H: hat acceptance
+                         "loop": [("Rational(-6744,10000) < %s" % t_, "goto stepH"), (None, "goto loop")],
+                         "stepH": [("c*Abs(%s) <= %s*exp(%s + e) - %s*exp(%s + e)" % (u_, tg(f2, 1), tg(f2, 0), tg(f2, 3), tg(f2, 2)), "return " + k2), (None, "goto loop")]})
+    b1 = "(Rational(1,24)/lam)"
+    b2 = "(Rational(3,10)*%s*%s)" % (b1, b1)
+    c3 = "(Rational(1,7)*%s*%s)" % (b1, b2)
+    ctor = dict(name="RejectionMethod::new", fn="poisson::RejectionMethod::<F>::new", kind="ctor", struct="RejectionMethod", params=["lambda"], rename={"lambda": "lam"}, symbols={"lam": "positive"},
+                fields={"lambda": "lam", "s": "sqrt(lam)", "d": "6*lam**2", "l": "floor(lam - Rational(11484,10000))", "c": "Rational(1069,10000)/lam",
+                        "c0": "1 - %s + 3*%s - 15*%s" % (b1, b2, c3), "c1": "%s - 6*%s + 45*%s" % (b1, b2, c3), "c2": "%s - 15*%s" % (b2, c3), "c3": c3,
+                        "omega": "1/sqrt(2*pi)/sqrt(lam)"})
+    new = dict(name="Poisson::new", fn="poisson::Poisson::<F>::new", kind="alg", self_ty=None, draws=[], symbols={"lam": "real"}, rename={"lambda": "lam"},
+               rules={"main": [("call is_finite(lam)", "goto pos"), (None, "return Err")],
+                      "pos": [("0 < lam", "goto meth"), (None, "return Err")],
+                      # Knuth's product method only for small means; the rejection method up to MAX_LAMBDA = 1.844e19
+                      "meth": [("lam < 12", "return Result_Ok(Poisson(Method_Knuth(KnuthMethod_new(lam))))"), ("18440000000000000000 < lam", "return Err"),
+                               (None, "return Result_Ok(Poisson(Method_Rejection(RejectionMethod_new(lam))))")]})
+    return [new, ctor, proc_f, sample]
+
+
+SPECS += _poisson_pd_specs()
+
+SPECS += [_hyper_new_spec()]
 
 
 def run(chk, F, tier):
     chk.trusted += ["Devroye (1986, X.6) rejection algorithm for the zeta distribution; Crease's rejection sampler for the Zipf law; Knuth's product method; "
-                    "Kachitvichyanukul & Schmeiser's BINV/BTPE (1988) and HIN (1985); Bringmann & Friedrich (2013) for Geometric — as cited in the crate's documentation",
+                    "Kachitvichyanukul & Schmeiser's BINV/BTPE (1988) and HIN (1985); Bringmann & Friedrich (2013) for Geometric; Ahrens & Dieter (1982) algorithm PD "
+                    "for Poisson — as cited in the crate's documentation",
                     "sympy's simplification (`equal`) and 40-digit evaluation at rational points (`different`)",
                     "the reference decision lists in rules_c02.py were transcribed from those sources"]
-    rules_c01.run_specs(chk, F, SPECS, 20)
-    chk.notes.append("not examined: Poisson Ahrens-Dieter (rejection method), Hypergeometric H2PE (its paths are `unspecified` in the reference and skipped), Hypergeometric::new")
+    rules_c01.run_specs(chk, F, SPECS, 29)
+    chk.notes.append("not examined: Hypergeometric H2PE's sampling loop (its paths are `unspecified` in the reference and skipped)")
